@@ -454,6 +454,68 @@ func c04Rotation(c *Ctx) {
 	}
 }
 
+// c04ManyRotations: one follow lives through a dozen rotations (a daily rotated log followed for two weeks): after
+// every one of them the lines appended 8 s later are delivered.  Canonical schedule (a long execution).
+func c04ManyRotations(c *Ctx) {
+	path := fmt.Sprintf("%s/c04-manyrot-%d.log", Scratch(), c.Shard)
+	const rounds = 12
+	sc := &explore.Scenario{Name: "c04-many-rotations", Params: fmt.Sprintf("%d rotations (truncate in place), 10 s apart", rounds), Agg: "c04-rotation", MaxSteps: 2000000, Horizon: 30 * time.Minute}
+	sc.Run = func(cfg vrt.Config) (string, string, vrt.Result) {
+		var viol, out string
+		res := vrt.Run(cfg, func() {
+			args := DefaultArgs()
+			args.Logger = "none"
+			args.LogLevel = "error"
+			StartEnv(source.Server, &args, nil)
+			if err := os.WriteFile(path, []byte("old\n"), 0o644); err != nil {
+				panic(err)
+			}
+			cat := vrt.Make[struct{}]("catLimiter", 2)
+			tail := vrt.Make[struct{}]("tailLimiter", 2)
+			s := NewServerSession("follower", "verifuser", cat, tail)
+			vrt.Go("pump", func() { s.Pump(32 * 1024) })
+			s.H.Write(WireCommand("tail " + path + " regex:noop "))
+			vrt.Sleep("follow", time.Second)
+			for r := 1; r <= rounds; r++ {
+				os.Truncate(path, 0)
+				vrt.Sleep("after-rotation", 8*time.Second)
+				f, err := os.OpenFile(path, os.O_WRONLY|os.O_APPEND, 0o644)
+				if err != nil {
+					panic(err)
+				}
+				fmt.Fprintf(f, "after rotation %d\n", r)
+				f.Close()
+				vrt.Sleep("deliver", 2*time.Second)
+			}
+			s.H.Shutdown()
+			s.Done.Recv("wait")
+			got := map[string]int{}
+			for _, m := range s.Lines() {
+				if f := strings.SplitN(m, "|", 6); len(f) == 6 {
+					got[strings.TrimSuffix(f[5], "\n")]++
+				}
+			}
+			for r := 1; r <= rounds; r++ {
+				if n := got[fmt.Sprintf("after rotation %d", r)]; n != 1 {
+					viol = fmt.Sprintf("one follow across %d rotations of its file: the line appended 8 s after rotation %d was delivered %d times, want once (delivered: %v)", rounds, r, n, got)
+					return
+				}
+			}
+			out = fmt.Sprintf("%d lines", len(got))
+		})
+		if res.Fail != nil {
+			return "fail:" + res.Fail.Kind, res.Fail.Error(), res
+		}
+		return out, viol, res
+	}
+	c.Explore(sc, 0, func(msg string, v *explore.Violation) string {
+		if strings.HasPrefix(msg, "panic") {
+			return "panic"
+		}
+		return "lines-after-rotation-not-delivered"
+	})
+}
+
 func c04Compositions(s string, maxParts int) (out [][]string) {
 	var rec func(start int, cur []string)
 	rec = func(start int, cur []string) {
@@ -527,7 +589,7 @@ func init() {
 		Level: "model_checking",
 		Rule: "stateless exploration of all schedules within a deviation bound of the real TailFile reader following a real file while a writer goroutine appends and a consumer receives: appended text of 1-3 lines over {a, bb, é} " +
 			"in every composition into <=2 (quick) / <=3 (thorough) write() calls (splits inside a line and inside the 2-byte character), initial content empty or 'old\\n', filter regex none/'a', delivery queue capacity 100 with an eager consumer or 1 with a consumer that only " +
-			"receives at the end, optional 150 ms writer pause; two followed files delivering into one shared queue (capacity 1, 2, 100); a whole tail session whose file is rotated (truncated in place / renamed and re-created) 1, 5 or 7 s into the follow, lines appended 8 s later; plus (canonical schedule) histories of 30..450 delivered lines followed by 1 or 3 lines dropped at a stopped consumer (capacity 4 and 100); file opens, reads and writes are scheduling points; oracle against the offset at which the follow began (observed at its Seek): delivered lines are exactly / a subsequence of the complete " +
+			"receives at the end, optional 150 ms writer pause; two followed files delivering into one shared queue (capacity 1, 2, 100); a whole tail session whose file is rotated (truncated in place / renamed and re-created) 1, 5 or 7 s into the follow, lines appended 8 s later; one follow across 12 rotations; plus (canonical schedule) histories of 30..450 delivered lines followed by 1 or 3 lines dropped at a stopped consumer (capacity 4 and 100); file opens, reads and writes are scheduling points; oracle against the offset at which the follow began (observed at its Seek): delivered lines are exactly / a subsequence of the complete " +
 			"lines appended after that offset, unmodified and in order, nothing older, a gap only with a full queue and then the next delivered line has TransmittedPerc < 100",
 		Assumptions: []string{
 			"truncation and rotation of the followed file only in the dedicated rotation scenarios, whose oracle is limited to lines appended 8 s or more after the rotation (the follower notices a rotation at its next 3 s check and re-opens 2 s later; lines appended in between are outside the statement)",
@@ -544,6 +606,9 @@ func init() {
 		},
 		Run: func(c *Ctx) {
 			c04Rotation(c)
+			if c.Shard == 0 {
+				c04ManyRotations(c)
+			}
 			ps, d := c04ParamSets(c.Tier)
 			if c.Thorough() {
 				d = 3
